@@ -27,7 +27,7 @@ RepairOf(s) == {[kind |-> "repair", alpha |-> "ws", slots |-> s, ops |-> o, g |-
 RepairOfA(s) == {[kind |-> "repair", alpha |-> "asciiws", slots |-> s, ops |-> o, g |-> g] :
                    o \in UNION {[1..n -> {"k", "i", "d"}] : n \in {Len(s), Len(s) + Cardinality({k \in 1..Len(s) : s[k] = 9})}}, g \in BOOLEAN}
 RepairCases == IF ~Fam("repair") THEN {} ELSE UNION {RepairOf(s) : s \in SeqsOver({1, 2, 5}, MaxLen)}
-                                               \cup UNION {RepairOfA(s) : s \in SeqsOver({1, 7, 9}, MaxLen - 1)}
+                                               \cup UNION {RepairOfA(s) : s \in SeqsOver({1, 7, 8, 9}, MaxLen - 1)}
 
 IsCleanSlots(s) == /\ \A k \in 1..(Len(s) - 1) : ~(s[k] = 1 /\ s[k + 1] = 1)
                    /\ (s # <<>> => s[1] # 1 /\ s[Len(s)] # 1)
